@@ -80,7 +80,10 @@ func c04Base(variant int) gen.S {
 					"requestBody": gen.S{"$ref": "#/components/requestBodies/Move"}, "responses": gen.S{"200": gen.S{"description": "moved"}}}},
 		},
 		"components": gen.S{
-			"schemas":       gen.S{"Pet": pet, "Owner": owner, "Choice": choice, "Error": errSchema},
+			// Audit is used by no operation: its example is read neither as a request nor as a response, so it may carry both
+			// a read-only and a write-only property
+			"schemas": gen.S{"Pet": pet, "Owner": owner, "Choice": choice, "Error": errSchema,
+				"Audit": gen.S{"type": "object", "required": gen.Arr("at", "token"), "properties": gen.S{"at": gen.S{"type": "string", "readOnly": true}, "token": gen.S{"type": "string", "writeOnly": true}}, "example": gen.S{"at": "noon", "token": "t"}}},
 			"parameters":    gen.S{"Session": gen.S{"name": "session", "in": "cookie", "required": true, "schema": gen.S{"type": "string", "minLength": 8.0}}},
 			"headers":       gen.S{"Shared": gen.S{"description": "h", "schema": gen.S{"type": "array", "items": str()}, "style": "simple"}},
 			"responses":     gen.S{"Error": gen.S{"description": "error", "content": gen.S{"application/json": gen.S{"schema": gen.S{"$ref": "#/components/schemas/Error"}}, "text/plain": gen.S{"schema": str(), "example": "oops"}}}},
@@ -332,6 +335,34 @@ func c04Rules() []c04rule {
 		delete(l.obj, "content")
 		delete(l.obj, "example")
 		delete(l.obj, "examples")
+		return true
+	})
+	add("header-schema-and-content", "header", func(l c04loc) bool {
+		if _, ok := l.obj["schema"]; !ok {
+			return false
+		}
+		l.obj["content"] = gen.S{"application/json": gen.S{"schema": gen.S{"type": "string"}}}
+		return true
+	})
+	add("header-neither-schema-nor-content", "header", func(l c04loc) bool {
+		for _, k := range []string{"schema", "content", "example", "examples", "style", "explode"} {
+			delete(l.obj, k)
+		}
+		return true
+	})
+	// "content: {}" declares no media type: it is not a content definition
+	add("header-no-schema-and-empty-content", "header", func(l c04loc) bool {
+		for _, k := range []string{"schema", "example", "examples", "style", "explode"} {
+			delete(l.obj, k)
+		}
+		l.obj["content"] = gen.S{}
+		return true
+	})
+	add("parameter-no-schema-and-empty-content", "parameter", func(l c04loc) bool {
+		for _, k := range []string{"schema", "example", "examples", "style", "explode"} {
+			delete(l.obj, k)
+		}
+		l.obj["content"] = gen.S{}
 		return true
 	})
 	add("parameter-content-two-entries", "parameter", func(l c04loc) bool {
